@@ -306,4 +306,84 @@ theorem sccs_aligned (eigD eigV : Mat3) (hV : IsOrtho eigV)
   simp only [sccs, hcol, sccsAxis_aligned eigV hV js σ hσ]
   exact (congrFun hcol k).symm
 
+
+/-! ### orthorhombic form is preserved by signed permutations of the axes -/
+/-- signed permutation matrix: row `i` has `ε i` in column `π i` -/
+def sperm (π : Fin 3 → Fin 3) (ε : Fin 3 → ℝ) : Mat3 := fun i j => if π i = j then ε i else 0
+
+/-- the index pairs of an orthorhombic 4th-order tensor: `C_aabb`, `C_abab`, `C_abba` -/
+def Paired (a b c d : Fin 3) : Prop := (a = b ∧ c = d) ∨ (a = c ∧ b = d) ∨ (a = d ∧ b = c)
+instance (a b c d : Fin 3) : Decidable (Paired a b c d) := by unfold Paired; infer_instance
+
+/-- orthorhombic in the coordinate frame: only paired components are non-zero -/
+def OrthoForm (T : Ten4) : Prop := ∀ a b c d, ¬ Paired a b c d → T a b c d = 0
+
+theorem sum3_ite (p : Fin 3) (c : ℝ) (f : Fin 3 → ℝ) :
+    (sum3 fun a => (if p = a then c else 0) * f a) = c * f p := by
+  fin_cases p <;> simp [sum3]
+
+theorem rotate_sperm (T : Ten4) (π : Fin 3 → Fin 3) (ε : Fin 3 → ℝ) :
+    rotate T (sperm π ε) = fun i j k l => ε i * ε j * ε k * ε l * T (π i) (π j) (π k) (π l) := by
+  rw [rotate_eq_con]
+  funext i j k l
+  simp only [con1, con2, con3, con4, sperm, sum3_ite]
+  ring
+
+theorem orthoForm_rotate_sperm (T : Ten4) (hT : OrthoForm T) (π : Fin 3 → Fin 3)
+    (hπ : Function.Injective π) (ε : Fin 3 → ℝ) : OrthoForm (rotate T (sperm π ε)) := by
+  intro a b c d hp
+  rw [rotate_sperm]
+  have : ¬ Paired (π a) (π b) (π c) (π d) := by
+    intro h; apply hp
+    rcases h with ⟨h1, h2⟩ | ⟨h1, h2⟩ | ⟨h1, h2⟩
+    · exact Or.inl ⟨hπ h1, hπ h2⟩
+    · exact Or.inr (Or.inl ⟨hπ h1, hπ h2⟩)
+    · exact Or.inr (Or.inr ⟨hπ h1, hπ h2⟩)
+  simp only [hT _ _ _ _ this, mul_zero]
+
+/-- the Voigt pattern of an orthorhombic stiffness matrix (nine non-zero entries of 21) -/
+def OrthoPat (M : Mat6) : Prop :=
+  ∀ i j : Fin 6, ((i.val < 3 ∧ 3 ≤ j.val) ∨ (3 ≤ i.val ∧ j.val < 3) ∨ (3 ≤ i.val ∧ 3 ≤ j.val ∧ i ≠ j)) → M i j = 0
+
+theorem orthoForm_of_pat (M : Mat6) (h : OrthoPat M) : OrthoForm (voigtToTensor M) := by
+  intro a b c d hp
+  simp only [voigtToTensor]
+  apply h
+  revert hp
+  fin_cases a <;> fin_cases b <;> fin_cases c <;> fin_cases d <;> simp [Paired]
+
+set_option maxHeartbeats 1000000 in
+/-- the 21-vector of an orthorhombic-form tensor has no monoclinic/triclinic components -/
+theorem vector_of_orthoForm (T : Ten4) (hT : OrthoForm T) (k : Fin 21) (hk : 9 ≤ k.val) :
+    matrixToVector (tensorToVoigt T) k = 0 := by
+  have e : T = fun a b c d => if Paired a b c d then T a b c d else 0 := by
+    funext a b c d
+    by_cases hp : Paired a b c d
+    · simp [hp]
+    · simp [hp, hT a b c d hp]
+  rw [e]
+  fin_cases k <;> simp at hk <;>
+    simp [matrixToVector, tensorToVoigt, accum, accumCount, sum81, sum3, mod3, lo3, up3, nxt, nxt2, Paired]
+
+
+/-- **an orthorhombic tensor seen from a candidate frame whose axes are ± its principal axes (in any
+order) has no monoclinic and no triclinic part**: `M = rot6 R M0` with `M0` of orthorhombic Voigt
+pattern, candidate frame `P` with `Pᵀ = S Rᵀ`, `S` a signed permutation -/
+theorem orthorhombic_candidate_frame (M0 : Mat6) (hS : IsSymm6 M0) (hpat : OrthoPat M0) (R : Mat3)
+    (hR : IsOrtho R) (π : Fin 3 → Fin 3) (hπ : Function.Injective π) (ε : Fin 3 → ℝ) (P : Mat3)
+    (hP : tr P = mmul (sperm π ε) (tr R)) (iso : Vec21) (nv : ℝ) :
+    (decompIn (voigtToTensor (rot6 R M0)) iso nv P).tric = 0 ∧
+    (decompIn (voigtToTensor (rot6 R M0)) iso nv P).mono = 0 := by
+  have hel0 := voigtToTensor_elastic M0 hS
+  have hel := rotate_elastic _ hel0 R
+  have hrot : rotate (voigtToTensor (rot6 R M0)) (tr P) = rotate (voigtToTensor M0) (sperm π ε) := by
+    rw [rot6, tensor_roundtrip _ hel, rotate_comp, hP, mmul_assoc, hR, mmul_one]
+  have hform : OrthoForm (rotate (voigtToTensor M0) (sperm π ε)) :=
+    orthoForm_rotate_sperm _ (orthoForm_of_pat M0 hpat) π hπ ε
+  have hvec := vector_of_orthoForm _ hform
+  obtain ⟨h1, h2⟩ := ortho_in_frame _ hvec
+  simp only [decompIn, ofA21_memoA21, ofA6_memoA6, ofA4_memoA4, hrot, h1, h2]
+  simp [norm21, sum21, Rsqrt]
+
+
 end ModelR.Tensors
